@@ -256,6 +256,12 @@ def metrics(after_runid: int = -1) -> [dawgie.db.MetricData]:
     log.debug('metrics() - total __metric__ in prime keys %d', len(keys))
     for m in sorted(keys):
         runid = int(m[0])
+
+        if runid <= after_runid:
+            # already seen: without a result entry of its own there is
+            # nothing to attach its values to
+            continue
+
         target = util.dissect(DBI().indices.target[m[1]])[1]
         task = util.dissect(DBI().indices.task[m[2]])[1]
         alg = util.dissect(DBI().indices.alg[m[3]])[1:]
